@@ -289,6 +289,72 @@ class GatesMap(Model):
     def m_iter(self, it):
         raise Unsupported('iteration over all gates of an abstract circuit needs an invariant')
 
+    # iteration over the keys (for g in self.gates) by a loop invariant: an arbitrary enumeration of the keys,
+    # each exactly once (library axiom of dict iteration)
+    prefix = []
+
+    @property
+    def n(self):
+        return self.h.S.size
+
+    def enumeration(self, ctx):
+        if getattr(self, '_enum', None) is None:
+            S = self.h.S
+            tag = self.h.name
+            y = z3.Function(f'keyenum@{tag}', I, LabelSort)
+            pos = z3.Function(f'keypos@{tag}', LabelSort, I)
+            i, l = z3.Int('i!ke'), z3.Const('l!ke', LabelSort)
+            ctx.assume(z3.ForAll([i], z3.Implies(z3.And(i >= 0, i < S.size), z3.And(S.dom(y(i)), pos(y(i)) == i))))
+            ctx.assume(z3.ForAll([l], z3.Implies(S.dom(l), z3.And(pos(l) >= 0, pos(l) < S.size, y(pos(l)) == l))))
+            self._enum = (y, pos)
+        return self._enum
+
+    def elem(self, i):
+        return self._enum[0](i)
+
+    def concrete_len(self, it=None):
+        return None
+
+
+class AbsStack(Model):
+    """a python list of labels used as a stack: length n, positional view elem(i) (functional)"""
+
+    def __init__(self, n, elem):
+        self.n, self.elem = n, elem
+
+    def m_truth_term(self):
+        return self.n > 0
+
+    def m_len(self, it):
+        return Sym(self.n)
+
+    def m_getitem(self, it, k):
+        if isinstance(k, slice):
+            raise Unsupported('slice of abstract stack')
+        kt = it.int_term(k)
+        if not it.ctx.choose(_simp(z3.And(kt >= -self.n, kt < self.n))):
+            it.raise_('IndexError', 'list index out of range')
+        return Sym(self.elem(z3.simplify(z3.If(kt < 0, kt + self.n, kt))))
+
+    def m_getattr(self, it, name):
+        if name == 'append':
+            def append(x):
+                xt, n, e = it.label_term(x), self.n, self.elem
+                self.elem = lambda i: z3.If(i == n, xt, e(i))
+                self.n = n + 1
+            return Native('stack.append', append)
+        if name == 'pop':
+            def pop(*a):
+                if a:
+                    raise Unsupported('pop(index)')
+                if not it.ctx.choose(_simp(self.n > 0)):
+                    it.raise_('IndexError', 'pop from empty list')
+                top = self.elem(self.n - 1)
+                self.n = self.n - 1
+                return Sym(top)
+            return Native('stack.pop', pop)
+        raise Unsupported('stack method ' + name)
+
 
 class GateValues(Model):
     """circuit._gates.values(): only comprehension patterns that abstract over ALL gates are supported"""
